@@ -53,6 +53,14 @@ pub struct CollideCase {
     /// the warm-up transaction also pays the target one wei
     #[serde(default)]
     pub warm_pay: bool,
+    /// EIP-2930 access list naming the target (Berlin+): 0 none, 1 on the create transaction,
+    /// 2 on the warm-up transaction; `al_slots`: 0 no slot, 1 an empty slot, 2 the slot that
+    /// holds a value, 3 both. (Reading an empty slot of the target through a caching layer
+    /// must not make it look as if the target had no storage.)
+    #[serde(default)]
+    pub al_on: u8,
+    #[serde(default)]
+    pub al_slots: u8,
     pub value: U256,
     pub salt: U256,
     pub sender_nonce: u64,
@@ -120,6 +128,17 @@ fn factory_code(create2: bool, value: U256, salt: U256) -> Bytes {
     a.bytes()
 }
 
+fn access_list(target: Address, slots: u8) -> Vec<(Address, Vec<U256>)> {
+    let mut ks = vec![];
+    if slots & 1 != 0 {
+        ks.push(U256::from(6)); // empty in every target state
+    }
+    if slots & 2 != 0 {
+        ks.push(U256::from(5)); // the slot the storage-holding targets use
+    }
+    vec![(target, ks)]
+}
+
 impl Engine for CollideSim {
     type Case = CollideCase;
     fn label(&self) -> String {
@@ -166,6 +185,8 @@ impl Engine for CollideSim {
             insert_into_cache: matches!(stack, StackKind::Cache | StackKind::MutRefCache) && target_state == TargetState::StorageOnly && rng.bool(),
             warm_up_first: rng.chance(1, 2),
             warm_pay: rng.bool(),
+            al_on: if spec.is_enabled_in(SpecId::BERLIN) && rng.chance(1, 3) { rng.range(1, 2) as u8 } else { 0 },
+            al_slots: rng.below(4) as u8,
             value: if rng.chance(1, 3) { U256::from(rng.range(1, 100)) } else { U256::ZERO },
             salt: U256::from(salt),
             sender_nonce: rng.below(3),
@@ -234,7 +255,11 @@ impl Engine for CollideSim {
         }
         let mut out = Vec::new();
         if c.warm_up_first {
-            let tx = TxSpec::simple(sender, Some(toucher), Bytes::new(), 200_000);
+            let mut tx = TxSpec::simple(sender, Some(toucher), Bytes::new(), 200_000);
+            if c.al_on == 2 {
+                tx.access_list = access_list(target, c.al_slots);
+                stats.inc("probe.access_list_names_target_in_earlier_tx");
+            }
             let _ = sys.transact_commit(&tx);
         }
         // reading through the stack loads the target into the caches, so it is only done when
@@ -253,6 +278,10 @@ impl Engine for CollideSim {
         let mut tx = if c.kind.is_tx() { TxSpec::simple(sender, None, ic.clone(), gas_limit) } else { TxSpec::simple(sender, Some(factory), Bytes::new(), gas_limit) };
         if c.kind.is_tx() {
             tx.value = c.value;
+        }
+        if c.al_on == 1 {
+            tx.access_list = access_list(target, c.al_slots);
+            stats.inc("probe.access_list_names_target_in_create_tx");
         }
         let res = sys.transact_commit(&tx);
         let layer = format!("{:?}{}", c.cfg.stack, if c.insert_into_cache { "+inserted" } else { "" });
@@ -349,7 +378,7 @@ impl Engine for CollideSim {
         if pays {
             stats.inc("probe.target_paid_by_earlier_tx");
         }
-        h.s(&c.cfg.spec).s(&layer).s(&key).u(c.warm_up_first as u64 + pays as u64).u(!c.value.is_zero() as u64).u(c.cfg.lazy_code as u64);
+        h.s(&c.cfg.spec).s(&layer).s(&key).u(c.al_on as u64 * 4 + c.al_slots as u64).u(c.warm_up_first as u64 + pays as u64).u(!c.value.is_zero() as u64).u(c.cfg.lazy_code as u64);
         stats.fingerprint(h.finish());
         if stats.samples.is_empty() {
             stats.samples.push(json!({"spec": c.cfg.spec, "layer": layer, "target": format!("{:?}", c.target_state), "kind": format!("{:?}", c.kind), "warm_up_first": c.warm_up_first, "expect_collision": expect_collision}));
@@ -368,6 +397,11 @@ impl Engine for CollideSim {
         if c.warm_pay {
             let mut d = c.clone();
             d.warm_pay = false;
+            out.push(d);
+        }
+        if c.al_on != 0 {
+            let mut d = c.clone();
+            d.al_on = 0;
             out.push(d);
         }
         if !c.value.is_zero() {
